@@ -314,6 +314,41 @@ def single_kind_plans(kind):
     return plans
 
 
+def self_loop_plans(kinds=None):
+    """the class 'an instance reading its own output', systematically: for every kind, every (output o, input i) pair, a block around
+    ONE instance whose output o is wired straight back to its input i (all other inputs from block inputs, every output also a block
+    output), once with the instance in the first instance column and once one column further right (another input goes through a Buf)"""
+    plans = []
+    for kind in (kinds or KIND_LIST):
+        ni, no, _ = KINDS[kind]
+        if ni is None:
+            ni = 3 if kind != 'Select' else 4
+        if kind in ('Nor3', 'Xor3'):
+            ni = 3
+        if ni == 0 or no == 0:
+            continue
+        for o in range(no):
+            for i in range(ni):
+                for far in (0, 1):
+                    if far and ni < 2:
+                        continue
+                    nodes, ins = [], []
+                    j = 1 if far else 0
+                    fi = (i + 1) % ni
+                    for q in range(ni):
+                        if q == i:
+                            ins.append(['n', j, o])
+                        elif far and q == fi:
+                            ins.append(['n', 0, 0])
+                        else:
+                            ins.append(['in', q])
+                    if far:
+                        nodes.append({'k': 'Buf', 'ni': 1, 'no': 1, 'ins': [['in', fi]], 'p': {'v': 0}})
+                    nodes.append({'k': kind, 'ni': ni, 'no': no, 'ins': ins, 'p': {'v': 1}})
+                    plans.append({'kind': 'plan', 'w': 1, 'nin': ni, 'nodes': nodes, 'outs': [['n', j, q] for q in range(no)], 'nfree': 0})
+    return plans
+
+
 class _Blk(Logic):
     def __init__(self, parent, name, plan, inw, outw):
         super().__init__(parent, name)
